@@ -41,6 +41,9 @@ vars == <<pc, hist, eps, store, legal, probe, result>>
 Loaders == {"netlist", "die", "alloc", "stog", "legal", "sliver"}   \* operations that load a design (set eps when unset)
 ReadsEps == {"netlist", "die", "alloc", "stog", "sliver"}       \* operations whose answer involves the tolerances
 \* "undef" is the public call Rectangle.undefine_epsilon(): the next loader derives the tolerances afresh.
+\* "pads" (history only) loads a netlist made of terminals only: a design without any dimension, so it has nothing to derive
+\* the tolerances from and must leave them as they are (unset stays unset: the next loader sets them).  On the pinned tree
+\* it set them to infinity, after which every die was rejected: repaired in /repo (fixed: property=C20).
 \* "sliver" is a probe only: a design whose rectangles overlap by an area within a factor 3 of its own area tolerance.
 \* Its verdict is decided by the tolerance in force, so it equals the fresh verdict only when the tolerance is unset
 \* at the probe (the probe then derives it from itself) -- e.g. after a history that ends with "undef".
